@@ -233,7 +233,28 @@ class An:
         for site in self.defs.get(l, []):
             st = self.stmt_at(site)
             if st['k'] == 'assign':
-                out |= self._roots_rv(st['rv'], _seen)
+                rv = st['rv']
+                if rv['k'] == 'use' and rv['op']['k'] in ('copy', 'move') and ty.startswith('&') and self._loads_stored_ref(rv['op']['place']):
+                    # `r = (*p).field` where the field is itself a reference: r points where the stored reference points
+                    # (what the container *carries*), never into the container — safe Rust has no self-referential borrows
+                    pp_ = rv['op']['place']['p']
+                    fld = pp_[len(pp_) - 1 - pp_[::-1].index('deref') + 1]
+                    direct = self._direct_pointees(rv['op']['place']['l'], set())
+                    for r in (direct if direct is not None else self.roots_local(rv['op']['place']['l'], _seen)):
+                        if r[0] == 'local' and is_refish(self.body.local_ty(r[1])):
+                            # field-sensitive when the container is built by aggregate statements only
+                            dsts = [self.stmt_at(d) for d in self.defs.get(r[1], [])]
+                            if dsts and isinstance(fld.get('i'), int) and all(
+                                    d.get('k') == 'assign' and d['rv'].get('k') == 'aggregate' and not d['place']['p']
+                                    and fld['i'] < len(d['rv']['fields']) for d in dsts):
+                                for d in dsts:
+                                    out |= self._roots_op(d['rv']['fields'][fld['i']], _seen)
+                            else:
+                                out |= self.roots_local(r[1], _seen)
+                        else:
+                            out.add(r)
+                    continue
+                out |= self._roots_rv(rv, _seen)
             elif st['k'] == 'call':
                 if is_refish(st['dest_ty']):
                     # a `&mut` result can only be derived from `&mut` arguments (safe code, no interior mutability)
@@ -244,6 +265,46 @@ class An:
         if len(_seen) == 1:
             self._roots_memo[l] = out
         return out
+
+    def _direct_pointees(self, l, seen):
+        """the locals a pointer local points *at* (not what those carry): {('local', L)} or None when not a plain chain of
+        `&x`, copies and whole reborrows"""
+        if l in seen:
+            return None
+        seen.add(l)
+        if 1 <= l <= self.body.arg_count:
+            return None
+        out = set()
+        for site in self.defs.get(l, []):
+            st = self.stmt_at(site)
+            if st['k'] != 'assign' or st['place']['p']:
+                return None
+            rv = st['rv']
+            if rv['k'] in ('ref', 'rawptr') and not rv['place']['p']:
+                out.add(('local', rv['place']['l']))
+            elif rv['k'] in ('ref', 'rawptr') and rv['place']['p'] == ['deref']:
+                r = self._direct_pointees(rv['place']['l'], seen)
+                if r is None:
+                    return None
+                out |= r
+            elif rv['k'] == 'use' and rv['op']['k'] in ('copy', 'move') and not rv['op']['place']['p']:
+                r = self._direct_pointees(rv['op']['place']['l'], seen)
+                if r is None:
+                    return None
+                out |= r
+            else:
+                return None
+        return out or None
+
+    @staticmethod
+    def _loads_stored_ref(pl):
+        """place = (*…).f.g: a value read out of memory behind a pointer, through at least one field"""
+        p = pl['p']
+        if 'deref' not in p:
+            return False
+        last = len(p) - 1 - p[::-1].index('deref')
+        tail = p[last + 1:]
+        return bool(tail) and all(isinstance(e, dict) and 'f' in e for e in tail)
 
     def _roots_op(self, op, _seen):
         if op['k'] in ('copy', 'move'):
@@ -684,6 +745,14 @@ class An:
                 if y[0] == 'call' and y[1].endswith('::iter') and 'slice' in y[1] and len(y[2]) == 1:
                     # s.iter().copied().collect::<Vec<_>>() is s.to_vec()
                     return ('call', 'std::slice::<impl [T]>::to_vec', (y[2][0],), site[0], self.callee_info(t))
+        if path in ('core::result::Result::unwrap', 'core::result::Result::expect', 'core::option::Option::unwrap', 'core::option::Option::expect') \
+                and args and args[0][0] == 'agg' and args[0][1] == 'adt' and args[0][2] in ('core::result::Result::Ok', 'core::option::Option::Some') \
+                and len(args[0][3]) == 1:
+            return args[0][3][0]           # unwrapping a value that was just built as Ok(v) / Some(v) is v
+        if path == 'core::convert::Into::into' and len(args) == 1 and len(c.get('generic_args') or []) == 2:
+            f_, t_ = c['generic_args']
+            if f_ in _INT_BITS and t_ in _INT_BITS and f_[0] == 'u' and t_[0] == 'u' and _INT_BITS[t_] >= _INT_BITS[f_]:
+                return ('cast', 'IntToInt', t_, args[0])       # usize::from(x: u16) is the zero-extending cast
         if path == 'core::num::<impl u8>::to_be_bytes' and len(args) == 1:
             return ('agg', 'array', 'array', (args[0],), ('0',))          # the one-byte encoding of a u8 is [x]
         if name in ('split_at_mut', 'split_at') and len(args) == 2 and 'slice' in path and not is_local_impl:
@@ -835,8 +904,51 @@ def get_an(facts, key):
     cache = facts.__dict__.setdefault('_an_cache', {})
     if key not in cache:
         b = facts.body(key)
-        cache[key] = An(b, facts) if b is not None else None
+        a = An(b, facts) if b is not None else None
+        if a is not None and _prune_decided_len_tests(a, facts):
+            a = An(b, facts)
+        cache[key] = a
     return cache[key]
+
+
+def _prune_decided_len_tests(a, facts):
+    """N7 a test `x.len() == N` that is dominated by the success edge of the exact-length guard for the same x and the same N
+    has one feasible outcome: the branch becomes a goto (the body is edited in place, once).  This is what makes
+    `<[u8; N]>::try_from(x).unwrap()` after `enforce_equal_len(N, x.len())?` the plain copy it is."""
+    body = a.body
+    if body.raw.get('_len_tests_pruned') is not None:
+        return False
+    body.raw['_len_tests_pruned'] = []
+    cands = []
+    for sb in sorted(a.cfg.reach):
+        blk = body.blocks[sb]
+        t = blk['term']
+        if blk['cleanup'] or t['k'] != 'switch' or t.get('discr_ty') != 'bool':
+            continue
+        d = strip_sites(a.val_op(t['discr'], a.term_point(sb)))
+        neg = False
+        while d[0] == 'un' and d[1] == 'Not':
+            d = d[2]
+            neg = not neg
+        if not (d[0] == 'bin' and d[1] in ('Eq', 'Ne')):
+            continue
+        for x, y in ((d[2], d[3]), (d[3], d[2])):
+            if x[0] == 'len' and x[1][0] == 'param' and y[0] == 'const' and isinstance(y[2], int) and not isinstance(y[2], bool):
+                cands.append((sb, t, x[1], y[2], (d[1] == 'Eq') != neg))
+    if not cands:
+        return False
+    from .rules.c13 import guard_equal_len
+    from .rules.common import switch_edge
+    done = False
+    for sb, t, param, n, is_eq in cands:
+        g = guard_equal_len(a, facts, sb, param, explicit=False)
+        if g is None or g != n:
+            continue
+        tgt = switch_edge(t, 1) if is_eq else switch_edge(t, 0)
+        body.blocks[sb]['term'] = {'k': 'goto', 'target': tgt, 'line': t.get('line'), 'syn': 'len-decided'}
+        body.raw['_len_tests_pruned'].append(sb)
+        done = True
+    return done
 
 
 def ref_summary(facts, key):
